@@ -268,7 +268,7 @@ func init() {
 		"Structural necessary conditions of 'singleton: constructed once, the same instance everywhere': who may write/delete the singleton table; the Singleton clause of resolution only reads the table; createInstance is called only from the initializer pass, the scoped/transient clauses and eager creation, where it is dominated by the Lifetime==Singleton test and by the already-present test on the descriptor's full key; Build returns only after a checked eager creation that walks the topological order; the graph sees every dependency of a descriptor verbatim; the resolution entry points memoise nothing; family fan-out for multi-output constructors (As family: known finding D1); key literals keep every identity component. NOT decided: invocation counts and pointer identity.",
 		commonAssumptions, func(w *World, r *Report) {
 			la := NewLockAnalysis(w)
-			r.Rule("R01.12", 4, "the tables that hold instances are keyed by service type, key and group")
+			r.Rule("R01.12", 2, "the tables that hold instances are keyed by service type, key and group")
 			r.Try(func() { ruleInstanceTableKeyType(w, r, "R01.12") })
 			r.Rule("R01.11", 1, "every descriptor derived from a registration (alias, multi-output) runs the function that was registered: its Constructor and Instance never come from the shared analysis record")
 			r.Try(func() { ruleDescriptorConstructorSource(w, r, "R01.11") })
@@ -330,7 +330,7 @@ func init() {
 			r.Try(func() { ruleAtomicRMW(w, r, "R02.10", la) })
 			r.Rule("R02.11", 1, "a failed construction leaves no trace and may be retried: no error exit of resolve is reachable with state recorded by resolve or its helpers and not retired")
 			r.Try(func() { ruleResolveWritesNothing(w, r, "R02.11") })
-			r.Rule("R02.15", 4, "the tables that hold instances are keyed by service type, key and group")
+			r.Rule("R02.15", 2, "the tables that hold instances are keyed by service type, key and group")
 			r.Try(func() { ruleInstanceTableKeyType(w, r, "R02.15") })
 			r.Rule("R02.12", 5, "initializers and constructors are never identified by their code pointer alone (closures of one literal share it: de-duplicating by it makes all but one of them run zero times)")
 			r.Try(func() { ruleFunctionIdentity(w, r, "R02.12") })
@@ -386,7 +386,7 @@ func init() {
 			r.Try(func() { ruleOptionalOnly(w, r, "R04.5") })
 			r.Try(func() { ruleKeyLiterals(w, r, "R04.7") })
 			r.Try(func() { ruleGraphSeesAllDependencies(w, r, "R04.8") })
-			r.Rule("R04.11", 4, "the tables that hold instances are keyed by service type, key and group (what is injected for one group is not another group's member)")
+			r.Rule("R04.11", 2, "the tables that hold instances are keyed by service type, key and group (what is injected for one group is not another group's member)")
 			r.Try(func() { ruleInstanceTableKeyType(w, r, "R04.11") })
 			r.Rule("R04.9", 1, "a descriptor's Constructor is reflect.ValueOf of the value registered, never a value from the shared analysis cache")
 			r.Try(func() { ruleDescriptorConstructorSource(w, r, "R04.9") })
